@@ -30,6 +30,9 @@ type Gen struct {
 	NoGraphVac   bool
 	NoDrop       bool
 	OnlyValidCfg bool
+	// NoDupReinforce: never list one id twice in a VReinforce call (the intermediate count
+	// is a state the model does not record; matters only for crash images)
+	NoDupReinforce bool
 	Combos       [][2]string // allowed metric/precision pairs (nil = all valid)
 }
 
@@ -267,7 +270,7 @@ func (g *Gen) Step(x *Exec) {
 		}
 	case p < 69:
 		ids := []string{vkit.Pick(r, g.IDs)}
-		if id, ok := g.pickLive(m, ix); ok {
+		if id, ok := g.pickLive(m, ix); ok && !(g.NoDupReinforce && id == ids[0]) {
 			ids = append(ids, id)
 		}
 		x.VReinforce(ix, ids)
